@@ -24,7 +24,7 @@ COMPONENTS = {"real": ["workflows.context.state_store.InMemoryStateStore, llama_
               "stub": [], "sim": ["loop (no concurrency used), op generator, nested-dict model"]}
 ASSUMPTIONS = ["only well-defined path operations are generated (existing list indices; intermediate dicts created on set)",
                "SQLite file I/O is the real library; only process-level restart is modelled"]
-EXPECTED_PROBES = ["snapshot-mutated", "restart", "parent-merge", "edit_state", "nested-set", "list-index-path"]
+EXPECTED_PROBES = ["snapshot-mutated", "restart", "parent-merge", "parent-merge-with-defaults", "edit_state", "nested-set", "list-index-path"]
 LEVEL_TEXT = "Seeded exploration of operation histories with restart faults against an executable reference model (refinement check op by op) and backend-vs-backend."
 LEVEL_NOTE = "Trusted: the 60-line nested-dict model in this file."
 
@@ -193,8 +193,13 @@ def run(tape):
                 elif kind == "child" and tape.chance(60, 100, "parent-merge"):
                     world.probe("parent-merge")
                     nb = {"a": tape.draw(9, "ss.a"), "items": [tape.draw(3, "ss.i")], "meta": {"k2": tape.draw(3, "ss.m")}}
-                    model.d.update(copy.deepcopy(nb))       # parent fields merged, child field 'extra' kept
-                    await both("set_state(parent-merge)", lambda st: st.set_state(BaseSt(**copy.deepcopy(nb))), ("ok", None))
+                    # the parent-typed state may leave fields at their class defaults: those overwrite the child's values too
+                    given = {k: v for k, v in nb.items() if tape.chance(65, 100, "ss.given")}
+                    full = dict({"a": 0, "items": [], "meta": {}}, **copy.deepcopy(given))
+                    if len(given) < 3:
+                        world.probe("parent-merge-with-defaults")
+                    model.d.update(copy.deepcopy(full))     # every parent field merged, child field 'extra' kept
+                    await both(f"set_state(parent-merge given={sorted(given)})", lambda st: st.set_state(BaseSt(**copy.deepcopy(given))), ("ok", None))
                 else:
                     nb = {"a": tape.draw(9, "ss.a"), "items": [], "meta": {"k1": tape.draw(3, "ss.m")}}
                     if kind == "child":
